@@ -740,3 +740,129 @@ def line_graph(case):
         return
     check("one-vertex-per-original-edge", attr(o.value, "num_vertices") == m)
     check("the-arbitrary-pair-of-incident-entries-was-entered", mk_bool(G["hit"]))
+
+
+# ------------------------------------------------------------------------------------------------ reductions
+class Expr(GhostVal):
+    """an expression / array the harness does not look into, tagged so that it can be recognised again"""
+
+    def __init__(self, tag, parts=()):
+        self.tag, self.parts = tag, parts
+
+    def pv_unop(self, opname):
+        return Expr("unop:" + opname, (self,))
+
+    def pv_binop(self, op, other, reflected):
+        return Expr("binop:" + op, (other, self) if reflected else (self, other))
+
+    def pv_compare(self, opname, other, reflected):
+        return Expr("cmp:" + opname, (other, self) if reflected else (self, other))
+
+    def pv_getattr(self, name):
+        if name == "data":
+            return Expr("data", (self,))
+        if name in ("then", "cond"):
+            return HostFn(lambda it, a, k: Expr(name, (self,) + tuple(a)), name, raw=True)
+        raise OutOfSubset("expression .%s" % name)
+
+
+@harness("C08")
+def not_segmenting_graph_form_is_a_reduction(case):
+    """explicit-graph form of active_vertices_not_adjacent_and_not_segmenting = not_adjacent(x, G) and
+    connected(~x, G): the second sentence of C08 (graph form) reduces to C08's first sentence and to C04"""
+    if CTX.mode != "sym":
+        return
+    log = []
+    x = Expr("is_active")
+    g = Opaque("graph")
+    use_contract(GR + "::active_vertices_not_adjacent", lambda it, a, k: log.append(("not_adjacent", a, k)))
+    use_contract(GR + "::active_vertices_connected", lambda it, a, k: log.append(("connected", a, k)))
+    solver = Opaque("solver")
+    o = call(REAL(GR, "active_vertices_not_adjacent_and_not_segmenting"), solver, x, g)
+    check("no-exception", not o.raised)
+    if o.raised:
+        return
+    na = [e for e in log if e[0] == "not_adjacent"]
+    co = [e for e in log if e[0] == "connected"]
+    check("exactly-these-two-constraints", len(log) == 2 and len(na) == 1 and len(co) == 1)
+    if len(na) == 1 and len(co) == 1:
+        check("not-adjacent-on-the-same-activity-and-graph", na[0][1][0] is solver and na[0][1][1] is x and na[0][1][2] is g)
+        c = co[0][1]
+        neg = c[1]
+        check("connectivity-of-the-complement-on-the-same-graph",
+              c[0] is solver and isinstance(neg, Expr) and neg.tag == "unop:Invert" and neg.parts[0] is x and (c[2] is g if len(c) > 2 else co[0][2].get("graph") is g))
+        check("plain-connectivity-not-the-tree-variant", not co[0][2].get("acyclic", False))
+
+
+@harness("C05", cases=[dict(allow_empty=a, roots=r) for a in (False, True) for r in (False, True)])
+def division_primitive_is_a_reduction(case):
+    """native route of division_connected: for EVERY label i < num_regions one indicator array that equals
+    (division == i), constrained connected by the native connectivity operator, non-empty unless allow_empty_group;
+    a given root r of label i is constrained to carry i — C05 (native route) reduces to C04 (native route)"""
+    if CTX.mode != "sym":
+        return
+    n, m, R = sint("n"), sint("m"), sint("num_regions")
+    requires(And(n >= 0, m >= 0, R >= 0))
+    g, U, V = _graph_obj(n, m)
+    log = []
+    AR = "cspuz/array.py"
+
+    division = OBJ(AR, "IntArray1D", data=Opaque("division data"))
+    use_contract(AR + "::IntArray1D.__eq__", lambda it, a, k: Expr("division==", (a[1],)))
+    use_contract(AR + "::IntArray1D.__getitem__", lambda it, a, k: Expr("division_at", (a[1],)))
+    regions = []
+
+    def bool_array(it, a, k):
+        r = Expr("region%d" % len(regions), (a[1],))
+        regions.append(r)
+        return r
+
+    use_contract(SOLV + "::Solver.bool_array", bool_array)
+    use_contract(SOLV + "::Solver.ensure", lambda it, a, k: log.append(("ensure", a[1:])))
+    use_contract(GR + "::_active_vertices_connected", lambda it, a, k: log.append(("connected", a, k)))
+    use_contract("cspuz/constraints.py::count_true", lambda it, a, k: Expr("count_true", tuple(a)))
+    solver = OBJ(SOLV, "Solver", variables=mklist([]), is_answer_key=mklist([]), constraints=mklist([]))
+    mark = {}
+
+    def head(ns):
+        mark["n"], mark["r"] = len(log), len(regions)
+        return None
+
+    def end(ns, token):
+        new = log[mark["n"]:]
+        check("one-fresh-indicator-array-of-n-flags-per-label", len(regions) - mark["r"] == 1 and regions[-1].parts[0] == n)
+        if len(regions) - mark["r"] != 1:
+            return
+        reg = regions[-1]
+        ens = [e for e in new if e[0] == "ensure"]
+        con = [e for e in new if e[0] == "connected"]
+        check("indicator-array-is-posted-connected-natively-on-this-graph",
+              len(con) == 1 and isinstance(con[0][1][1], Expr) and con[0][1][1].tag == "data" and con[0][1][1].parts[0] is reg and con[0][1][2] is g
+              and con[0][2].get("use_graph_primitive") is True)
+        # region == (division == i): the comparison of two ghost values is evaluated by the interpreter as Python `==`;
+        # the harness recognises the constraint by its operands
+        check("constraints-per-label", len(ens) == (1 if case.allow_empty else 2))
+        if ens:
+            eq = ens[0][1][0]
+            ok = isinstance(eq, Expr) and eq.tag == "cmp:Eq" and eq.parts[0] is reg and isinstance(eq.parts[1], Expr) and eq.parts[1].tag == "division=="
+            check("indicator-array-equals-(division == label)", ok and eq.parts[1].parts[0] == ns.i)
+        if not case.allow_empty and len(ens) == 2:
+            ne = ens[1][1][0]
+            check("non-empty-label-class", isinstance(ne, Expr) and ne.tag == "cmp:GtE" and ne.parts[0].tag == "count_true" and ne.parts[0].parts[0] is reg and ne.parts[1] == 1)
+
+    loop_spec(GR + "::_division_connected", 0, inv=lambda ns: [], modifies=[], types={"region": "opaque"}, at_head=head, at_end=end)
+    r0 = sint("root0")
+    roots = mklist([r0, None]) if case.roots else None
+    n_before = len(log)
+    o = call(REAL(GR, "_division_connected"), solver, division, R, g, roots=roots, allow_empty_group=case.allow_empty, use_graph_primitive=True)
+    check("no-exception", not o.raised)
+    if o.raised:
+        return
+    if case.roots:
+        # on the loop-exit path the log holds only what was posted after the label loop
+        tail = [e for e in log if e[0] == "ensure"][-1:] if log else []
+        ok = len(tail) == 1 and isinstance(tail[0][1][0], Expr) and tail[0][1][0].tag == "cmp:Eq"
+        check("the-given-root-of-label-0-is-constrained", ok)
+        if ok:
+            c = tail[0][1][0]
+            check("root-vertex-carries-its-label", isinstance(c.parts[0], Expr) and c.parts[0].tag == "division_at" and c.parts[0].parts[0] == r0 and c.parts[1] == 0)
